@@ -248,3 +248,37 @@ pub fn run(ctx: &Ctx) {
     ctx.sample_tag("machine", json!({"max_len": max_len, "note": "BFS over batches built by append/duplicate/swap from honest or singly corrupted entries; each state: verify_batch (twice) vs conjunction of model verifications, plus all slice-length triples for short batches"}));
     let _ = hex(&[0u8]);
 }
+
+/// C15: verify_batch never panics on the corruption space, mismatched lengths, adversarial
+/// keys, and reports malformed input as Err.
+pub fn panic_sweep(ctx: &Ctx, quick: bool) {
+    let w = World::new(3, 3);
+    let n = if quick { 3 } else { 5 };
+    // every corruption at every position of a short batch
+    for len in 1..=n {
+        for pos in 0..len {
+            for c in 0..7u8 {
+                ctx.eval(1);
+                let batch: Vec<Entry> = (0..len).map(|i| Entry { key: (i % 3) as u8, msg: (i % 3) as u8, corrupt: if i == pos { c } else { 0 } }).collect();
+                if let Err(e) = run_batch(&w, &batch, (len, len, len)) {
+                    ctx.violation("batch.verify_batch", &e, json!({"kind": "batch_short", "len": len, "pos": pos, "corrupt": c}));
+                }
+            }
+        }
+    }
+    // adversarial (small-order / mixed-order) keys and R: only "no panic" is required
+    let t = crate::model::ed::torsion();
+    for j in 0..8 {
+        for k in 0..8 {
+            ctx.eval(1);
+            let key = VerifyingKey::from_bytes(&t[j].compress()).expect("torsion points decode");
+            let mut sig = [0u8; 64];
+            sig[..32].copy_from_slice(&t[k].compress());
+            let sg = Signature::from_bytes(&sig);
+            let msgs: Vec<&[u8]> = vec![b"x"];
+            if let Err(e) = guarded(|| verify_batch(&msgs, &[sg], &[key]).is_ok()) {
+                ctx.violation("batch.verify_batch", &format!("panic: {}", e), json!({"kind": "batch_torsion", "key": j, "r": k}));
+            }
+        }
+    }
+}
